@@ -1,4 +1,4 @@
-(* C14, netlist level.  For a netlist N of s-domain contexts (kind 's'), the ac
+(* C14, netlist level.  For a netlist N of s-domain contexts (kind 's', 'laplace' or 'transient'), the ac
    sub-netlist (same components, kind = the frequency, parameters = images under
    the homomorphism h, "s := j omega") assembles to the entry-wise image of the
    s-domain system; hence
@@ -21,7 +21,7 @@ Add Field KFn' : (fth K').
 
 (* what is required of an s-domain element for its ac counterpart to be its image *)
 Definition okelem (e : cname * sctx K) : Prop :=
-  kind (snd e) = KS /\ Dctx h (snd e) /\ fst e <> cTL /\
+  lapk (kind (snd e)) = true /\ Dctx h (snd e) /\ fst e <> cTL /\
   (fst e = cRV -> h (fmul (par (snd e) pArg0) (fsub f1 (par (snd e) pArg1))) <> f0 /\
                   h (fmul (par (snd e) pArg0) (par (snd e) pArg1)) <> f0).
 Definition ac_net (N : netlist K) : netlist K' := map (fun e => (fst e, ac_ctx h (snd e))) N.
